@@ -398,6 +398,7 @@ func c10GenResults(t *rapid.T, n int) []c10Res {
 	tsKind := rapid.IntRange(0, 4).Draw(t, "tskind") // equal, increasing, reversed, shuffled, clustered with dups
 	maxLat := int64(1) << 62 / int64(n+1)
 	rs := make([]c10Res, n)
+	manyErrs := n >= 80 && rapid.Bool().Draw(t, "manyerrs") // dozens of distinct error texts, each recurring
 	step := rapid.Int64Range(1, 1e10).Draw(t, "step")
 	for i := range rs {
 		r := &rs[i]
@@ -438,6 +439,9 @@ func c10GenResults(t *rapid.T, n int) []c10Res {
 		}
 		if r.Code < 200 || r.Code >= 400 {
 			r.Err = rapid.SampledFrom(c10ErrPool).Draw(t, fmt.Sprintf("e%d", i))
+			if manyErrs {
+				r.Err = fmt.Sprintf("dial tcp 10.0.0.%d:80: connect: connection refused", rapid.IntRange(0, 59).Draw(t, fmt.Sprintf("ei%d", i)))
+			}
 		}
 		r.In = rapid.Uint64Range(0, 1<<40).Draw(t, fmt.Sprintf("in%d", i))
 		r.Out = rapid.Uint64Range(0, 1<<40).Draw(t, fmt.Sprintf("out%d", i))
@@ -573,6 +577,13 @@ func TestC10ManyErrors(t *testing.T) {
 			m.Add(&vegeta.Result{Code: 0, Error: e, Timestamp: time.Unix(1600000000, int64(len(want))), Latency: time.Duration(1 + v%1e9)})
 			if len(want)%50000 == 0 {
 				m.Close()
+			}
+		}
+		// every third text comes back a second time: still n distinct texts
+		k := 0
+		for e := range want {
+			if k++; k%3 == 0 {
+				m.Add(&vegeta.Result{Code: 0, Error: e, Timestamp: time.Unix(1600000001, int64(k)), Latency: time.Millisecond})
 			}
 		}
 		m.Close()
